@@ -70,6 +70,8 @@ STATEMENT_STATUS: Dict[str, str] = {
     "C05_split_bytes": "proved: any division of the bytes into streams gives the same token-level program",
     "C05_split_at_token_boundary": "proved: at a token boundary, lexing the streams independently (ISO 7.8.2) = "
                                    "pdfminer's single scanner",
+    "C05_split_at_white_space": "proved: a stream ending in white space after a complete number / operator / name "
+                                "is such a boundary",
     "C05_form_frame": "proved: interpreter state of the caller after Do = before, device CTM = caller's CTM",
     "C05_form_frame_spec": "proved",
     "C05_illtyped": "proved: an instruction with missing/ill-typed operands (no booleans, no excess) leaves the "
